@@ -57,6 +57,13 @@ def run(job):
         return job, {}, 'apply failed: ' + (e.stderr or b'').decode()[-200:]
     finally:
         shutil.rmtree(d, ignore_errors=True)
+# the Go build cache grows with every scratch copy (cache keys include paths): trim it before it fills the disk
+try:
+    sz = int(subprocess.run('du -sm /root/.cache/go-build 2>/dev/null | cut -f1', shell=True, capture_output=True, text=True).stdout.strip() or 0)
+    if sz > 40000:
+        subprocess.run('go clean -cache', shell=True, env=env)
+except Exception:
+    pass
 bad = 0
 seedres, refres = {}, {}
 with ThreadPoolExecutor(14) as ex:
